@@ -10,7 +10,7 @@
 //! Every random choice comes from one PRNG, so (seed, parameters) replays exactly.
 use crate::rng::Rng;
 use protobuf::Message as _;
-use raft::{prelude::*, storage::MemStorage, GetEntriesContext, RaftState, StateRole, Storage};
+use raft::{prelude::*, storage::MemStorage, GetEntriesContext, ProgressState, RaftState, StateRole, Storage};
 use slog::{o, Discard, Logger};
 use std::collections::{BTreeMap, BTreeSet, HashMap, VecDeque};
 use std::fmt::Write as _;
@@ -159,6 +159,7 @@ struct View {
     ro: Vec<(u64, u64)>,      // read requests registered by the leader: (request id, read index)
     rstates: Vec<(u64, u64)>, // read states not yet handed out: (request id, index)
     transferee: Option<u64>,
+    prs: Vec<(u64, ProgressState, u64)>, // per peer: progress state, pending snapshot index
 }
 
 /// numeric id of a read request context ("r<N>")
@@ -209,6 +210,11 @@ pub struct Params {
 }
 
 pub struct Sim {
+    // directed faults, drawn from their own PRNG stream: one-way holds of a link (optionally of one message type
+    // only: selective reordering), the lagging-acknowledgements scenario, one read request with an empty context
+    rng2: Rng,
+    held: Vec<(u64, u64, Option<MessageType>)>,
+    empty_read_done: bool,
     stash_seen: u64,
     replaying_stash: bool,
     stash: Vec<Message>, // lock-step mode: copies of the (pre-)vote traffic seen so far, re-delivered later as stale duplicates
@@ -370,7 +376,9 @@ impl Sim {
             next_payload: 1, leaders: HashMap::new(), committed: BTreeMap::new(), leader_committed: BTreeMap::new(), leader_committed_in: BTreeMap::new(), ref_app: BTreeMap::new(),
             released_as_leader: HashMap::new(), reads: HashMap::new(), max_commit: 0, seen_commit: HashMap::new(),
             last_conf: HashMap::new(), transfer_ticks: HashMap::new(), cur_what: String::new(), stash: vec![], stash_seen: 0, replaying_stash: false,
+            rng2: Rng::new(0), held: vec![], empty_read_done: false,
         };
+        sim.rng2 = Rng::new(sim.params.seed ^ 0x5EED_FA17);
         if sim.p_active {
             sim.ptrace.push(format!("p new {} -> ok", sim.params.seed));
             // PC: the configuration the group is bootstrapped with is version 0 of the configuration table
@@ -451,7 +459,9 @@ impl Sim {
         let mut ro: Vec<(u64, u64)> = r.read_only.pending_read_index.iter().map(|(c, st)| (rid_of(c), st.index)).collect();
         ro.sort();
         let rstates = r.read_states.iter().map(|rs| (rid_of(&rs.request_ctx), rs.index)).collect();
-        Some(View { term: r.term, vote: r.vote, state: r.state, commit: r.raft_log.committed, first, entries, nmsgs: r.msgs.len(), ro, rstates, transferee: r.lead_transferee })
+        let mut prs: Vec<(u64, ProgressState, u64)> = r.prs().iter().map(|(id, p)| (*id, p.state, p.pending_snapshot)).collect();
+        prs.sort_by_key(|x| x.0);
+        Some(View { term: r.term, vote: r.vote, state: r.state, commit: r.raft_log.committed, first, entries, nmsgs: r.msgs.len(), ro, rstates, transferee: r.lead_transferee, prs })
     }
 
     fn pview(&mut self, i: usize) {
@@ -614,6 +624,23 @@ impl Sim {
             let r = &self.nodes[i].rn.as_ref().unwrap().raft;
             match m.get_msg_type() {
                 MessageType::MsgAppend => {
+                    // no append while a snapshot to that follower is outstanding: the leader was and stays leader of
+                    // this term, the follower's progress was in the snapshot state before the call, and the call is
+                    // neither the follower's acknowledgement of the snapshot index nor the application's report
+                    if pre.state == StateRole::Leader && post.state == StateRole::Leader && same_term {
+                        if let Some((_, _, pend)) = pre.prs.iter().find(|x| x.0 == m.to && x.1 == ProgressState::Snapshot) {
+                            let excused = match input {
+                                Some(im) => {
+                                    (im.get_msg_type() == MessageType::MsgAppendResponse && im.from == m.to && !im.reject && im.index >= *pend)
+                                        || im.get_msg_type() == MessageType::MsgSnapStatus
+                                }
+                                None => self.cur_what.starts_with("report_snapshot") || self.cur_what.starts_with("apply_conf") || self.cur_what.starts_with("misc"),
+                            };
+                            if !excused {
+                                self.violate("C13", format!("leader n{} sent an append (prev {}, {} entries) to {} while the snapshot at index {} it sent is outstanding: not acknowledged, not reported (call: {})", id, m.index, m.entries.len(), m.to, pend, self.cur_what));
+                            }
+                        }
+                    }
                     if m.commit > post.commit {
                         self.violate("C13", format!("n{} advertised commit {} in an append while its own commit index is {}", id, m.commit, post.commit));
                     }
@@ -1747,6 +1774,7 @@ impl Sim {
                     break;
                 }
             }
+            self.extra_faults();
             let i = self.rng.below(n_nodes as u64) as usize;
             let op = self.rng.below(100);
             match op {
@@ -1769,7 +1797,11 @@ impl Sim {
                     } else if !self.net.is_empty() {
                         let k = self.rng.below(self.net.len() as u64) as usize;
                         let dup = self.rng.chance(10);
-                        self.deliver(k, dup);
+                        if self.is_held(&self.net[k]) {
+                            self.stat("held_back");
+                        } else {
+                            self.deliver(k, dup);
+                        }
                     }
                 }
                 52..=55 => {
@@ -1803,8 +1835,15 @@ impl Sim {
                     self.call(i, &format!("transfer_leader {}", t), None, |rn| rn.transfer_leader(t));
                 }
                 93..=94 if self.nodes[i].rn.is_some() => {
-                    let c = format!("r{}", self.next_payload).into_bytes();
+                    let mut c = format!("r{}", self.next_payload).into_bytes();
                     self.next_payload += 1;
+                    if !self.empty_read_done && self.rng2.chance(12) {
+                        // once per run: a request whose context is the empty byte string (request id 0) — the same
+                        // context ordinary heartbeats carry
+                        self.empty_read_done = true;
+                        c.clear();
+                        self.stat("read_empty_context");
+                    }
                     let id = self.nodes[i].id;
                     let mc = self.max_commit;
                     self.reads.insert(c.clone(), (id, mc));
@@ -1937,6 +1976,7 @@ impl Sim {
         if cs.get_voters().is_empty() {
             return;
         }
+        self.held.clear();
         self.log(format!("STABILISE members {:?}", members));
         self.stat("stabilise_runs");
         for k in 0..n {
@@ -2072,6 +2112,182 @@ impl Sim {
 
     /// a healthy phase: a few rounds of ready / deliver-everything / tick, so that leaders get
     /// elected, logs grow and snapshots/compaction become possible
+    fn is_held(&self, m: &Message) -> bool {
+        self.held.iter().any(|(f, t, ty)| *f == m.from && *t == m.to && ty.map_or(true, |x| x == m.get_msg_type()))
+    }
+
+    /// delivers everything in flight except what a hold keeps back (which stays in flight)
+    fn deliver_all_unheld(&mut self) {
+        let msgs: Vec<Message> = self.net.drain(..).collect();
+        let mut kept = vec![];
+        for m in msgs {
+            if self.is_held(&m) {
+                kept.push(m);
+                continue;
+            }
+            self.net.push(m);
+            let k = self.net.len() - 1;
+            self.deliver(k, false);
+        }
+        self.net.extend(kept);
+    }
+
+    fn leader_now(&self) -> Option<usize> {
+        (0..self.nodes.len()).filter(|&k| self.nodes[k].rn.as_ref().map_or(false, |r| r.raft.state == StateRole::Leader))
+            .max_by_key(|&k| self.nodes[k].rn.as_ref().unwrap().raft.term)
+    }
+
+    /// directed faults on top of the uniform scheduler (own PRNG stream)
+    fn extra_faults(&mut self) {
+        if self.params.lockstep {
+            return;
+        }
+        if self.net.len() > 3000 {
+            self.net.drain(..1000);
+            self.stat("net_cap");
+        }
+        let x = self.rng2.below(1000);
+        if x < 6 {
+            if self.held.is_empty() {
+                let n = self.nodes.len() as u64;
+                if n < 2 {
+                    return;
+                }
+                // most holds involve the leader: its acknowledgements or its appends are what the protocol reacts to
+                let l = self.leader_now().map(|k| self.nodes[k].id);
+                let a = if let (Some(l), true) = (l, self.rng2.chance(75)) { l } else { 1 + self.rng2.below(n) };
+                let mut b = 1 + self.rng2.below(n);
+                if b == a {
+                    b = 1 + (b % n);
+                }
+                let (f, t) = if self.rng2.chance(60) { (b, a) } else { (a, b) };
+                let ty = match self.rng2.below(6) {
+                    0 => Some(MessageType::MsgAppendResponse),
+                    1 => Some(MessageType::MsgHeartbeatResponse),
+                    2 => Some(MessageType::MsgAppend),
+                    3 => Some(MessageType::MsgSnapshot),
+                    _ => None,
+                };
+                self.log(format!("HOLD {} -> {} {:?}", f, t, ty));
+                self.held.push((f, t, ty));
+                self.stat("hold");
+            } else {
+                self.log("RELEASE holds".to_string());
+                self.held.clear();
+                self.stat("release");
+            }
+        } else if x < 8 && !self.params.stabilise {
+            self.lagging_acks();
+        }
+    }
+
+    /// scenario: a follower keeps receiving entries while its acknowledgements are held back; the others commit
+    /// without it; the leader applies, compacts past what it knows the follower to hold and is told the follower is
+    /// unreachable; heartbeats go through (so the leader falls back to a snapshot); then the old acknowledgements
+    /// arrive, and after a while the snapshot
+    fn lagging_acks(&mut self) {
+        let Some(l) = self.leader_now() else { return };
+        let lid = self.nodes[l].id;
+        let peers: Vec<u64> = self.nodes[l].rn.as_ref().unwrap().raft.prs().iter().map(|(id, _)| *id).filter(|id| *id != lid).collect();
+        if peers.is_empty() {
+            return;
+        }
+        let f = peers[self.rng2.below(peers.len() as u64) as usize];
+        self.log(format!("SCENARIO lagging acknowledgements of n{} (leader n{})", f, lid));
+        self.stat("scenario_lagging_acks");
+        let saved = std::mem::take(&mut self.held);
+        self.held.push((f, lid, Some(MessageType::MsgAppendResponse)));
+        let n = self.nodes.len();
+        let rounds = 3 + self.rng2.below(5);
+        for r in 0..rounds {
+            if self.nodes[l].rn.is_none() {
+                break;
+            }
+            let p = self.next_payload;
+            self.next_payload += 1;
+            self.call(l, &format!("propose p{}", p), None, |rn| {
+                let _ = rn.propose(vec![], format!("p{}", p).into_bytes());
+            });
+            for _ in 0..3 {
+                for k in 0..n {
+                    self.fsync(k);
+                    self.process_ready(k);
+                }
+                self.deliver_all_unheld();
+            }
+            if r + 2 == rounds {
+                // the appends of the last rounds to the follower are lost
+                self.held.push((lid, f, Some(MessageType::MsgAppend)));
+            }
+            self.monitors();
+        }
+        if self.nodes[l].rn.is_none() {
+            self.held = saved;
+            return;
+        }
+        self.compact(l);
+        if self.rng2.chance(80) {
+            self.call(l, &format!("report_unreachable {}", f), None, |rn| rn.report_unreachable(f));
+        }
+        // lost appends
+        self.net.retain(|m| !(m.from == lid && m.to == f && m.get_msg_type() == MessageType::MsgAppend));
+        self.held.retain(|h| h.2 != Some(MessageType::MsgAppend));
+        self.held.push((lid, f, Some(MessageType::MsgSnapshot)));
+        let hb = self.nodes[l].cfg.heartbeat_tick.max(1);
+        for _ in 0..2 {
+            for _ in 0..hb {
+                if self.nodes[l].rn.is_some() {
+                    self.call(l, "tick", None, |rn| { rn.tick(); });
+                }
+            }
+            for _ in 0..2 {
+                for k in 0..n {
+                    self.fsync(k);
+                    self.process_ready(k);
+                }
+                self.deliver_all_unheld();
+            }
+        }
+        // the old acknowledgements arrive (in order), the snapshot is still in flight
+        self.held.retain(|h| h.2 != Some(MessageType::MsgAppendResponse));
+        let late: Vec<Message> = {
+            let mut v = vec![];
+            let mut k = 0;
+            while k < self.net.len() {
+                if self.net[k].from == f && self.net[k].to == lid && self.net[k].get_msg_type() == MessageType::MsgAppendResponse {
+                    v.push(self.net.remove(k));
+                } else {
+                    k += 1;
+                }
+            }
+            v
+        };
+        for m in late {
+            self.net.push(m);
+            let k = self.net.len() - 1;
+            self.deliver(k, false);
+            if self.rng2.chance(50) {
+                self.process_ready(l);
+            }
+        }
+        if self.nodes[l].rn.is_some() {
+            let p = self.next_payload;
+            self.next_payload += 1;
+            self.call(l, &format!("propose p{}", p), None, |rn| {
+                let _ = rn.propose(vec![], format!("p{}", p).into_bytes());
+            });
+        }
+        for _ in 0..2 {
+            for k in 0..n {
+                self.fsync(k);
+                self.process_ready(k);
+            }
+            self.deliver_all_unheld();
+        }
+        self.monitors();
+        self.held = saved;
+    }
+
     fn burst(&mut self) {
         let n = self.members();
         let rounds = 5 + self.rng.below(25);
@@ -2082,12 +2298,7 @@ impl Sim {
                 }
                 self.process_ready(k);
             }
-            let msgs: Vec<Message> = self.net.drain(..).collect();
-            for m in msgs {
-                self.net.push(m);
-                let k = self.net.len() - 1;
-                self.deliver(k, false);
-            }
+            self.deliver_all_unheld();
             if self.rng.chance(40) {
                 for k in 0..n {
                     self.call(k, "tick", None, |rn| {
